@@ -71,6 +71,8 @@ pub struct Stats {
     pub nontrivial: u64,
     /// executions beyond one per run (e.g. the per-case fault-offset sweep of C04)
     pub extra_evals: u64,
+    /// generic coverage bitmap (e.g. C13: which (digit count, terminator) kernel cases were hit)
+    pub bits: Vec<u64>,
 }
 
 const DISTINCT_CAP: usize = 3_000_000;
@@ -88,6 +90,17 @@ impl Stats {
         }
     }
     #[inline]
+    pub fn set_bit(&mut self, idx: usize) {
+        let w = idx / 64;
+        if self.bits.len() <= w {
+            self.bits.resize(w + 1, 0);
+        }
+        self.bits[w] |= 1 << (idx % 64);
+    }
+    pub fn bits_set(&self) -> u64 {
+        self.bits.iter().map(|w| w.count_ones() as u64).sum()
+    }
+    #[inline]
     pub fn hit(&mut self, k: &str) {
         self.add(k, 1);
     }
@@ -97,6 +110,12 @@ impl Stats {
         }
         self.steps += other.steps;
         self.extra_evals += other.extra_evals;
+        if self.bits.len() < other.bits.len() {
+            self.bits.resize(other.bits.len(), 0);
+        }
+        for (i, w) in other.bits.iter().enumerate() {
+            self.bits[i] |= w;
+        }
         self.nontrivial += other.nontrivial;
         self.distinct_saturated |= other.distinct_saturated;
         for k in other.distinct {
